@@ -69,6 +69,81 @@ fn copy_db(from: &Path, to: &Path) {
     }
 }
 
+/// Content digest of every storage UNIT of the SQLite file at `path`, read through a second, read-only connection:
+/// one unit per table, `openmls_group_data` split by its `data_type` column (tree, context, message_secrets,
+/// group_state, …).  `unit:hash8` joined by `;` — equal strings = equal durable content.  Comparing the digests
+/// of consecutive crash points tells WHICH units each storage operation of a call changed, in order: the
+/// observed write sequence that `vlib/c12seq.py` compares with the translated `Generated.writeSeq`.
+fn table_digest(path: &Path) -> String {
+    use sha2::{Digest, Sha256};
+    let run = || -> rusqlite::Result<String> {
+        let conn = rusqlite::Connection::open_with_flags(path, rusqlite::OpenFlags::SQLITE_OPEN_READ_ONLY)?;
+        let mut names: Vec<String> = vec![];
+        {
+            let mut st = conn.prepare("SELECT name FROM sqlite_master WHERE type='table' AND name NOT LIKE 'sqlite_%' AND name NOT LIKE 'refinery%' ORDER BY name")?;
+            let rows = st.query_map([], |r| r.get::<_, String>(0))?;
+            for r in rows {
+                names.push(r?);
+            }
+        }
+        let mut units: std::collections::BTreeMap<String, Vec<[u8; 32]>> = Default::default();
+        for t in &names {
+            let mut st = conn.prepare(&format!("SELECT * FROM \"{t}\""))?;
+            let ncol = st.column_count();
+            let type_col = if t == "openmls_group_data" { st.column_index("data_type").ok() } else { None };
+            let mut rows = st.query([])?;
+            units.entry(t.clone()).or_default();
+            while let Some(row) = rows.next()? {
+                let mut h = Sha256::new();
+                let mut unit = t.clone();
+                for c in 0..ncol {
+                    match row.get_ref(c)? {
+                        rusqlite::types::ValueRef::Null => h.update([0u8]),
+                        rusqlite::types::ValueRef::Integer(i) => {
+                            h.update([1u8]);
+                            h.update(i.to_le_bytes());
+                        }
+                        rusqlite::types::ValueRef::Real(f) => {
+                            h.update([2u8]);
+                            h.update(f.to_le_bytes());
+                        }
+                        rusqlite::types::ValueRef::Text(b) => {
+                            h.update([3u8]);
+                            h.update((b.len() as u64).to_le_bytes());
+                            h.update(b);
+                            if Some(c) == type_col {
+                                unit = format!("omls:{}", String::from_utf8_lossy(b));
+                            }
+                        }
+                        rusqlite::types::ValueRef::Blob(b) => {
+                            h.update([4u8]);
+                            h.update((b.len() as u64).to_le_bytes());
+                            h.update(b);
+                        }
+                    }
+                }
+                units.entry(unit).or_default().push(h.finalize().into());
+            }
+        }
+        units.remove("openmls_group_data");
+        let mut parts = vec![];
+        for (u, mut hs) in units {
+            if hs.is_empty() {
+                continue;
+            }
+            hs.sort();
+            let mut h = Sha256::new();
+            for x in &hs {
+                h.update(x);
+            }
+            let d: [u8; 32] = h.finalize().into();
+            parts.push(format!("{u}:{}", hex::encode(&d[..4])));
+        }
+        Ok(if parts.is_empty() { "-".into() } else { parts.join(";") })
+    };
+    run().unwrap_or_else(|_| "unreadable".into())
+}
+
 /// (a) every group loads + the projection used to classify a torn state
 fn inspect(w: &mut World, v: usize, ev: Option<usize>) -> (bool, String) {
     let evid = ev.and_then(|e| w.events.get(e)).map(|e| e.id);
@@ -187,6 +262,7 @@ pub fn run_case(id: &str, victim: usize, maxk: u64, memk: u64, script: &[Vec<Str
         let fp_pre = w.fingerprint(victim);
         let gid_pre = w.clients[victim].gid.clone();
         let (_, proj_pre) = inspect(&mut w, victim, ev_of(cmd));
+        let tabs_pre = table_digest(&path);
         hooks::arm(0, true);
         let result = catch_unwind(AssertUnwindSafe(|| w.exec(&t))).unwrap_or_else(|_| "panic".into());
         let ticks = hooks::ticks();
@@ -194,6 +270,7 @@ pub fn run_case(id: &str, victim: usize, maxk: u64, memk: u64, script: &[Vec<Str
         hooks::arm(0, false);
         let fp_post = w.fingerprint(victim);
         let (_, proj_post) = inspect(&mut w, victim, ev_of(cmd));
+        let tabs_post = table_digest(&path);
         let mut lab: Vec<(String, usize)> = vec![];
         for l in &labels {
             match lab.last_mut() {
@@ -203,7 +280,7 @@ pub fn run_case(id: &str, victim: usize, maxk: u64, memk: u64, script: &[Vec<Str
         }
         writeln!(
             out,
-            "base {} {ticks} {} labels={} cmd={} => {} pre={proj_pre} post={proj_post}",
+            "base {} {ticks} {} labels={} cmd={} => {} pre={proj_pre} post={proj_post} tabspre={tabs_pre} tabspost={tabs_post}",
             base.len(),
             if is_local(t[0]) { "local" } else { "remote" },
             if lab.is_empty() { "-".into() } else { lab.iter().map(|(l, n)| format!("{l}*{n}")).collect::<Vec<_>>().join(",") },
@@ -319,6 +396,7 @@ pub fn run_case(id: &str, victim: usize, maxk: u64, memk: u64, script: &[Vec<Str
                 continue;
             }
             let (loads, mid) = inspect(&mut w, victim, ev_of(cmd));
+            let tabs = table_digest(&work);
             let fp_mid = catch_unwind(AssertUnwindSafe(|| w.fingerprint(victim))).unwrap_or_else(|_| "fp-panic".into());
             let state = match (fp_mid == b.fp_pre, fp_mid == b.fp_post) {
                 (true, true) => "prepost",
@@ -358,7 +436,7 @@ pub fn run_case(id: &str, victim: usize, maxk: u64, memk: u64, script: &[Vec<Str
             }
             writeln!(
                 out,
-                "crash {bi} {k} label={label} kind={} panicked={} loads={} state={state} mid={mid} retry={retry} later={} final={fin} obs={obs} end={endp}",
+                "crash {bi} {k} label={label} kind={} panicked={} loads={} state={state} mid={mid} retry={retry} later={} final={fin} obs={obs} end={endp} tabs={tabs}",
                 if local { "local" } else { "remote" },
                 panicked as u8,
                 loads as u8,
@@ -392,6 +470,7 @@ pub fn run_case(id: &str, victim: usize, maxk: u64, memk: u64, script: &[Vec<Str
                 let _ = catch_unwind(AssertUnwindSafe(|| w2.exec(&t2)));
             }
             let (_, pre) = inspect(&mut w2, victim, ev_of(cmd));
+            let tabs_pre = w2.clients[victim].sql_path.clone().map(|p| table_digest(&p)).unwrap_or_else(|| "-".into());
             hooks::arm(k, false);
             let r = catch_unwind(AssertUnwindSafe(|| w2.exec(&t)));
             hooks::arm(0, false);
@@ -401,6 +480,7 @@ pub fn run_case(id: &str, victim: usize, maxk: u64, memk: u64, script: &[Vec<Str
             w2.clients[victim].mdk = open_victim(&w2, victim, &path);
             let label = b.labels.get(k as usize - 1).cloned().unwrap_or_else(|| "?".into());
             let (loads, mid) = inspect(&mut w2, victim, ev_of(cmd));
+            let tabs = table_digest(&path);
             let retry = result_head(&catch_unwind(AssertUnwindSafe(|| w2.exec(&t))).unwrap_or_else(|_| "panic".into()));
             for c2 in &script[b.idx + 1..] {
                 let t2: Vec<&str> = c2.iter().map(|s| s.as_str()).collect();
@@ -411,7 +491,7 @@ pub fn run_case(id: &str, victim: usize, maxk: u64, memk: u64, script: &[Vec<Str
             }
             let (_, endp) = inspect(&mut w2, victim, ev_of(cmd));
             let agree = agrees(&mut w2, victim);
-            writeln!(out, "crashmem {bi} {k} label={label} kind=remote panicked={} loads={} pre={pre} mid={mid} retry={retry} end={endp} agree={agree}", panicked as u8, loads as u8).unwrap();
+            writeln!(out, "crashmem {bi} {k} label={label} kind=remote panicked={} loads={} pre={pre} mid={mid} retry={retry} end={endp} agree={agree} tabs={tabs} tabspre={tabs_pre}", panicked as u8, loads as u8).unwrap();
         }
     }
     writeln!(out, "end {id}").unwrap();
